@@ -1,14 +1,16 @@
 """C18 — Synthesised dataclass constructors equal the ones CPython generates.
 
-Workload: generated dataclass hierarchies (2..5 classes, depth <= 3, <= 2 bases, one module or two modules of a
-package, occasionally a nested dataclass): every field form (plain, default, field() with every option, KW_ONLY marker,
+Workload: generated dataclass hierarchies (2..5 classes, depth <= 3, <= 2 bases; in one module, in two modules of a
+package (the bases' module walked first or last), or spread over 2..3 top-level modules / packages that are loaded one
+after the other - a *loading session*: dependencies first, by one GriffeLoader or by one loader per step sharing the
+collections, the bases reached through every import form; occasionally a nested dataclass): every field form (plain, default, field() with every option, KW_ONLY marker,
 ClassVar, InitVar, properties, unannotated attributes, methods), every decorator spelling (@dataclass, @dataclass(),
 @dataclasses.dataclass, aliased imports), every combination of the init / kw_only decorator arguments, frozen,
 hand-written __init__, undecorated subclasses, non-dataclass classes.
 Oracle: CPython executes the same source in this child (statement by statement, so a class CPython rejects is counted
 and skipped without losing the others); ``inspect.signature`` of the ``__init__`` CPython generated / kept / inherits is
 compared with ``cls.members['__init__'].parameters`` and ``cls.parameters`` after a *static load through GriffeLoader*
-(the built-in dataclasses extension runs on ``on_package_loaded``).
+(the built-in dataclasses extension runs on ``on_package_loaded``; in a session the view is taken after the last step).
 """
 from __future__ import annotations
 
@@ -27,7 +29,11 @@ PROP = "C18"
 LEVEL = "exploration"
 ANCHORS = ["extensions/dataclasses.py"]
 RULE = ("seeded hierarchies of 2..5 classes C0..C4 (each with <=2 bases among earlier classes, depth <=3; 20% spread over two "
-        "modules of a package, 12% with an extra nested dataclass): per class a mode (decorated dataclass / decorated with a "
+        "modules of a package - the bases' module sorting first or last -, 26% spread over 2..3 top-level units {module, package, "
+        "package with a submodule, package re-exporting its submodule} loaded one after the other in a random dependency-respecting "
+        "order by one loader or by one loader per step sharing the collections, bases reached through {from u import C, import u, "
+        "import u as x, from u.core import C, import u.core [as x], from u import core as x}; 12% of the one-module cases with an "
+        "extra nested dataclass): per class a mode (decorated dataclass / decorated with a "
         "hand-written __init__ / undecorated), a decorator spelling among {@dataclass, @dataclass(), @dataclasses.dataclass, "
         "@dc, @d.dataclass} with random init/kw_only/frozen arguments, 0..5 fields drawn from {x: T, x: T = v, field(), "
         "field(default=), field(default_factory=), field(init=False), field(kw_only=True|False), field(repr=..), InitVar, "
@@ -49,10 +55,16 @@ TECHNIQUE = "runtime monitoring: differential oracle against CPython's dataclass
 REQUIRED_COUNTERS = ["classes_accepted_by_cpython", "generated_inits_compared", "class_parameters_compared", "handwritten_inits_checked",
                      "non_dataclasses_checked_no_init", "inherited_dataclass_labels_checked", "classes_rejected_by_cpython",
                      "init_kw_only_combinations_seen", "kw_only_marker_classes", "initvar_fields_seen", "classvar_fields_seen",
-                     "field_init_false_seen", "aliased_decorator_seen"]
+                     "field_init_false_seen", "aliased_decorator_seen", "loading_sessions_judged", "cross_package_generated_inits_compared",
+                     "cross_package_inherited_initvar_inits_compared", "cross_package_inherited_inits_compared",
+                     "generated_inits_with_base_in_later_module_compared"]
 EXHAUSTIVE = {"quick": False, "thorough": False}
 ASSUMPTIONS = ["CPython 3.12's dataclasses module is the reference; classes it rejects (TypeError/ValueError at class creation) are outside the domain",
-               "hierarchies are sampled (seeded); only the 9 init/kw_only decorator combinations are enumerated exhaustively (on the last class)"]
+               "hierarchies are sampled (seeded); only the 9 init/kw_only decorator combinations are enumerated exhaustively (on the last class)",
+               "loading sessions load every package after the packages it imports from (a subclass loaded before the package of its base "
+               "cannot know the base: outside the statement); the presentation is judged once, after the last step of the session",
+               "when CPython rejects a class of a multi-module tree, the remaining classes are created statement by statement in module objects "
+               "registered under the generated names (same classes as a real import whenever the import succeeds)"]
 
 F_BARE = "C18-bare-field-call-reported-optional"
 F_KWFALSE = "C18-field-kw-only-false-ignored"
@@ -165,6 +177,8 @@ def cpython_view(files: dict[str, str], package: str, rec) -> dict[str, dict] | 
         finally:
             del sys.modules[mod.__name__]
         return out
+    if package == "multi":
+        return cpython_view_units(files, rec)
     with tmp_tree(files) as root:
         unique = f"pk{next(_SERIAL)}x"
         (root / "pk").rename(root / unique)
@@ -173,18 +187,146 @@ def cpython_view(files: dict[str, str], package: str, rec) -> dict[str, dict] | 
         sys.path.insert(0, str(root))
         try:
             mods = [importlib.import_module(f"{unique}.{m}") for m in ("m0", "m1")]
-        except Exception as exc:  # noqa: BLE001  (any error at class creation: the package is outside the domain)
-            rec.count("packages_rejected_by_cpython")
-            rec.add_to_set("cpython_rejection_reasons", f"{type(exc).__name__}: {exc}"[:80])
-            return None
+        except Exception:  # noqa: BLE001  (some class is rejected at creation: judge the others, statement by statement)
+            mods = None
         finally:
             sys.path.remove(str(root))
             for k in [k for k in sys.modules if k == unique or k.startswith(unique + ".")]:
                 del sys.modules[k]
+        if mods is None:
+            return cpython_view_statementwise(files, rec)
         for mod in mods:
             for name, obj in vars(mod).items():
                 if isinstance(obj, type) and obj.__module__ == mod.__name__:
                     out[name] = describe_class(obj)
+    return out
+
+
+def module_names(files: dict[str, str]) -> list[str]:
+    names = []
+    for rel in files:
+        parts = rel[:-3].split("/")
+        if parts[-1] == "__init__":
+            parts.pop()
+        names.append(".".join(parts))
+    return sorted(names)
+
+
+def cpython_view_units(files: dict[str, str], rec) -> dict[str, dict] | None:  # noqa: ANN001
+    """Several top-level modules / packages on one search path: import every module, describe every class where it is defined."""
+    out: dict[str, dict] = {}
+    names = module_names(files)
+    tops = {n.split(".")[0] for n in names}
+    clash = sorted(k for k in sys.modules if k.split(".")[0] in tops)
+    if clash:
+        raise RuntimeError(f"generated unit names are already imported: {clash}")
+    with tmp_tree(files) as root:
+        sys.path.insert(0, str(root))
+        importlib.invalidate_caches()
+        try:
+            mods = [importlib.import_module(n) for n in names]
+        except Exception:  # noqa: BLE001  (some class is rejected at creation: judge the others, statement by statement)
+            mods = None
+        finally:
+            sys.path.remove(str(root))
+            for k in [k for k in sys.modules if k.split(".")[0] in tops]:
+                del sys.modules[k]
+        if mods is None:
+            return cpython_view_statementwise(files, rec)
+        for mod in mods:
+            for name, obj in vars(mod).items():
+                if isinstance(obj, type) and obj.__module__ == mod.__name__:
+                    out[name] = describe_class(obj)
+    return out
+
+
+def _imported_modules(node: ast.stmt, modname: str, is_pkg: bool, known: set[str]) -> set[str]:
+    """The generated modules an import statement of module ``modname`` needs to be executed first."""
+    found = set()
+    if isinstance(node, ast.Import):
+        for alias in node.names:
+            parts = alias.name.split(".")
+            found |= {".".join(parts[:k]) for k in range(1, len(parts) + 1)}
+    elif isinstance(node, ast.ImportFrom):
+        base = node.module or ""
+        if node.level:
+            pkg = modname.split(".") if is_pkg else modname.split(".")[:-1]
+            pkg = pkg[:len(pkg) - (node.level - 1)]
+            base = ".".join([*pkg, base] if base else pkg)
+        parts = base.split(".")
+        found |= {".".join(parts[:k]) for k in range(1, len(parts) + 1)}
+        found |= {f"{base}.{alias.name}" for alias in node.names}
+    return (found & known) - {modname}
+
+
+def cpython_view_statementwise(files: dict[str, str], rec) -> dict[str, dict]:  # noqa: ANN001, C901
+    """The same classes, created by CPython one statement at a time in module objects registered under the generated names
+    (imports between them are served from sys.modules, dependencies executed first), so that a class CPython rejects is counted
+    and left out - with everything that needs it - without losing the rest of the tree."""
+    import types
+
+    out: dict[str, dict] = {}
+    rel_of = {}
+    for rel in files:
+        parts = rel[:-3].split("/")
+        is_pkg = parts[-1] == "__init__"
+        rel_of[".".join(parts[:-1] if is_pkg else parts)] = (rel, is_pkg)
+    known = set(rel_of)
+    clash = sorted(k for k in sys.modules if k in known)
+    if clash:
+        raise RuntimeError(f"generated module names are already imported: {clash}")
+    trees = {name: ast.parse(files[rel]) for name, (rel, _p) in rel_of.items()}
+    needs = {name: set().union(*[_imported_modules(st, name, rel_of[name][1], known) for st in trees[name].body]) for name in rel_of}
+    order: list[str] = []
+
+    def place(name: str, path: tuple = ()) -> None:
+        if name in order or name in path:
+            return
+        for dep in sorted(needs[name]):
+            place(dep, (*path, name))
+        order.append(name)
+
+    for name in sorted(rel_of):
+        place(name)
+    rec.count("trees_with_rejected_classes_judged_statementwise")
+    mods = {}
+    try:
+        for name, (rel, is_pkg) in rel_of.items():
+            mod = types.ModuleType(name)
+            mod.__file__ = rel
+            mod.__package__ = name if is_pkg else name.rpartition(".")[0]
+            if is_pkg:
+                mod.__path__ = []
+            mods[name] = sys.modules[name] = mod
+        for name, mod in mods.items():
+            parent, _dot, short = name.rpartition(".")
+            if parent:
+                setattr(mods[parent], short, mod)
+        for name in order:
+            ns = mods[name].__dict__
+            body = []
+            for node in trees[name].body:      # `from x import A, B` -> one statement per name: a rejected class only takes itself away
+                if isinstance(node, ast.ImportFrom) and len(node.names) > 1:
+                    body.extend(ast.copy_location(ast.ImportFrom(node.module, [alias], node.level), node) for alias in node.names)
+                else:
+                    body.append(node)
+            for node in body:
+                code = compile(ast.Module([node], []), f"<c18:{name}>", "exec")
+                try:
+                    exec(code, ns)  # noqa: S102
+                except Exception as exc:  # noqa: BLE001
+                    if isinstance(node, ast.ClassDef):
+                        out[node.name] = {"accepted": False, "why": f"{type(exc).__name__}: {exc}"[:160]}
+                    elif isinstance(node, ast.ImportFrom) and isinstance(exc, ImportError) and node.names[0].name in out:
+                        continue        # the import of a class that was rejected where it is defined
+                    else:
+                        raise
+                else:
+                    if isinstance(node, ast.ClassDef):
+                        out[node.name] = describe_class(ns[node.name])
+    finally:
+        for name in mods:
+            sys.modules.pop(name, None)
     return out
 
 
@@ -194,13 +336,20 @@ def params_of(parameters) -> list[tuple[str, str, bool]]:  # noqa: ANN001
     return [(p.name, p.kind.value if p.kind is not None else None, bool(p.required)) for p in parameters]
 
 
-def griffe_view(files: dict[str, str], package: str) -> dict[str, dict]:
+def griffe_view(files: dict[str, str], package: str, load: list[str] | None = None, loaders: str = "same") -> dict[str, dict]:
+    """Static load.  ``load``: a loading session - the top-level names are loaded one after the other (dependencies first), either
+    by one GriffeLoader or by one new GriffeLoader per step sharing the modules / lines collections; the view is taken at the end."""
     import griffe
 
     out: dict[str, dict] = {}
     with tmp_tree(files) as root:
         loader = griffe.GriffeLoader(search_paths=[root], allow_inspection=False)
-        top = loader.load(package)
+        tops = []
+        for step, name in enumerate(load or [package]):
+            if step and loaders == "shared-collections":
+                loader = griffe.GriffeLoader(search_paths=[root], allow_inspection=False,
+                                             modules_collection=loader.modules_collection, lines_collection=loader.lines_collection)
+            tops.append(loader.load(name))
 
         def visit(obj) -> None:  # noqa: ANN001
             for name, member in obj.members.items():
@@ -224,7 +373,8 @@ def griffe_view(files: dict[str, str], package: str) -> dict[str, dict]:
                     out[name] = info
                     visit(member)
 
-        visit(top)
+        for top in tops:
+            visit(top)
     return out
 
 
@@ -355,12 +505,20 @@ def judge_case(rec, case: dict) -> None:  # noqa: ANN001, C901, PLR0912, PLR0915
             if cpv is None:
                 rec.skip("package rejected by CPython")
                 return
-            gv = griffe_view(files, package)
+            gv = griffe_view(files, package, case.get("load"), case.get("loaders", "same"))
     except Exception as exc:  # noqa: BLE001
         rec.fail_exc(case, "exception while executing / loading the hierarchy", exc)
         return
     problems: list[tuple[str, object, object, str | None]] = []
     accepted_dc_with_dc_parent = False
+    session = case.get("load")
+    if session:
+        rec.count("loading_sessions_judged")
+        rec.maximum("loading_session_max_steps", len(session))
+        rec.add_to_set("loading_session_loaders", case.get("loaders", "same"))
+
+    def unit(name: str) -> str:
+        return facts[name]["file"].split("/")[0].removesuffix(".py")
     for cname, cp in cpv.items():
         if not cp["accepted"]:
             rec.count("classes_rejected_by_cpython")
@@ -389,6 +547,23 @@ def judge_case(rec, case: dict) -> None:  # noqa: ANN001, C901, PLR0912, PLR0915
                     rec.count("field_init_false_seen")
         if cp["is_dc"] and any(cp["decorated"].get(b) for b in cp["mro"][1:]):
             accepted_dc_with_dc_parent = True
+        if package == "pk" and cp["own_init"] and fc["init_span"] is None and any(
+                cp["decorated"].get(b) and facts[b]["file"] > fc["file"] for b in cp["mro"][1:]):
+            rec.count("generated_inits_with_base_in_later_module_compared")     # the subclass is processed before its base
+        if session:
+            # what the class inherits from classes that were loaded in an *earlier step* of the session (another top-level package)
+            foreign = [b for b in cp["mro"][1:] if unit(b) != unit(cname)]
+            foreign_dc = [b for b in foreign if cp["decorated"].get(b)]
+            if foreign:
+                rec.count("cross_package_subclasses_compared")
+            if foreign_dc and cp["own_init"] and fc["init_span"] is None:
+                rec.count("cross_package_generated_inits_compared")
+                # fields that are parameters but never members of the loaded class (init-only variables): nothing in the tree of
+                # the earlier package records them once that package has been processed
+                if any("InitVar" in f["ann"] for b in foreign_dc for f in facts[b]["fields"]):
+                    rec.count("cross_package_inherited_initvar_inits_compared")
+            if foreign_dc and not cp["own_init"]:
+                rec.count("cross_package_inherited_inits_compared")
         # (1) label
         labelled = "dataclass" in g["labels"]
         if cp["is_dc"] and not cp["decorated_here"]:
@@ -431,7 +606,7 @@ def judge_case(rec, case: dict) -> None:  # noqa: ANN001, C901, PLR0912, PLR0915
     nontrivial = accepted_dc_with_dc_parent and any(
         f["ann"].endswith("KW_ONLY") or "kw_only" in (f["field_kwargs"] or {}) for fc in facts.values() for f in fc["fields"]) or (
         accepted_dc_with_dc_parent and any("kw_only" in fc["dec_kwargs"] for fc in facts.values()))
-    tags = ["two-modules"] if package == "pk" else []
+    tags = ["two-modules"] if package == "pk" else ["multi-package"] if session else []
     if not problems:
         rec.ok(case, nontrivial=nontrivial, tags=tags)
         return
@@ -463,7 +638,7 @@ def run_shard(spec: dict, rec) -> None:  # noqa: ANN001
 
 
 def run_replay(inp: dict, rec) -> None:  # noqa: ANN001
-    judge_case(rec, {"files": inp["files"], "package": inp["package"]})
+    judge_case(rec, {k: inp[k] for k in ("files", "package", "load", "loaders") if k in inp})
 
 
 def run_pinned(findings: list[dict], rec) -> dict:  # noqa: ANN001
